@@ -175,8 +175,10 @@ class Publish:
 
         self.data = data
 
-        # XXX: Use the MutableFileVersion instead.
-        self.datalength = self._node.get_size()
+        # The old length is that of the version being updated (the
+        # node's most-recent-size cache is not refreshed by modify() or
+        # update() and may describe an older version).
+        self.datalength = version[4]
         if data.get_size() > self.datalength:
             self.datalength = data.get_size()
 
